@@ -86,14 +86,7 @@ func runC02(r *Run) {
 	contextProvenanceRules(r)
 
 	// (5) canonical patch order
-	ci := "common/db.(*memDBWrapper).changesInternal"
-	r.Has(ci, "db.NewPatch().Put(recv.NewIterator(a0).Key(),recv.NewIterator(a0).Value())", "a change set is emitted by walking the ordered iterator of the in-memory layer: key order, independent of write order")
-	r.Returns(ci, []string{"nil, recv.NewIterator(a0).Error()", "db.NewPatch(), nil"}, "and nothing else is added to it")
-	r.WhoMayCallExt("patch record writers", "(*github.com/syndtr/goleveldb/leveldb.Batch).Put", []string{"common/db.*"}, false, "state-change patches are built only inside common/db (ordered iterator + order-preserving replay filters); no other package assembles a patch record by record")
-	r.WhoMayCallExt("patch record writers (delete)", "(*github.com/syndtr/goleveldb/leveldb.Batch).Delete", []string{"common/db.*"}, false, "same for delete records")
-	r.Has("common/db.(*enableDeleteDB).Changes", "recv.db.changesInternal(new([0]byte)[:])#0.Replay(new(db.enableDeletePatch))", "tombstones are translated into delete records by replaying the ordered patch")
-	r.Has("common/db.(*subDB).changesInternal", "recv.db.changesInternal(common.JoinBytes(list(recv.prefix,a0)))#0.Replay(new(db.removePatchKeyPrefix))", "prefix removal replays the ordered patch")
-	r.Has("common/db.(*removePatchKeyPrefix).Put", "recv.Patch.Put(a0[recv.prefixLength:],a1)", "the prefix filter forwards each record unchanged but for the prefix")
+	patchOrderRules(r)
 
 	// (6) views, caches, apply loop
 	tombstoneAgreement(r)
@@ -135,5 +128,19 @@ func contextProvenanceRules(r *Run) {
 	r.Returns(gms, []string{"nil", "momentum.NewStore(recv.genesis,recv.chainManager.Get(a0))"}, "the momentum view handed out is the versioned view of exactly the identifier asked for")
 	r.Returns("chain.(*accountPool).GetAccountStore", []string{"recv.getStableAccountStore(a0)", "nil", "account.NewAccountStore(a0,recv.getAccountManager(a0).Get(a1))"}, "the account view handed out is the version asked for (stable, or the pool manager's version of that identifier)")
 	r.Branch("chain.(*accountPool).GetAccountStore", "eq(a1,recv.getStableAccountStore(a0).Identifier())", "the stable view is returned only when it is the version asked for")
+
+}
+
+// patchOrderRules: change sets are built only inside common/db from the ordered iterator of the
+// private layer, and the prefix/tombstone filters replay them record by record (shared by C02, C07).
+func patchOrderRules(r *Run) {
+	ci := "common/db.(*memDBWrapper).changesInternal"
+	r.Has(ci, "db.NewPatch().Put(recv.NewIterator(a0).Key(),recv.NewIterator(a0).Value())", "a change set is emitted by walking the ordered iterator of the in-memory layer: key order, independent of write order")
+	r.Returns(ci, []string{"nil, recv.NewIterator(a0).Error()", "db.NewPatch(), nil"}, "and nothing else is added to it")
+	r.WhoMayCallExt("patch record writers", "(*github.com/syndtr/goleveldb/leveldb.Batch).Put", []string{"common/db.*"}, false, "state-change patches are built only inside common/db (ordered iterator + order-preserving replay filters); no other package assembles a patch record by record")
+	r.WhoMayCallExt("patch record writers (delete)", "(*github.com/syndtr/goleveldb/leveldb.Batch).Delete", []string{"common/db.*"}, false, "same for delete records")
+	r.Has("common/db.(*enableDeleteDB).Changes", "recv.db.changesInternal(new([0]byte)[:])#0.Replay(new(db.enableDeletePatch))", "tombstones are translated into delete records by replaying the ordered patch")
+	r.Has("common/db.(*subDB).changesInternal", "recv.db.changesInternal(common.JoinBytes(list(recv.prefix,a0)))#0.Replay(new(db.removePatchKeyPrefix))", "prefix removal replays the ordered patch")
+	r.Has("common/db.(*removePatchKeyPrefix).Put", "recv.Patch.Put(a0[recv.prefixLength:],a1)", "the prefix filter forwards each record unchanged but for the prefix")
 
 }
